@@ -4,6 +4,7 @@
 package main
 
 import (
+	"time"
 	"verif/harness/cmd/c40/shardh"
 	"verif/harness/h"
 )
@@ -59,5 +60,5 @@ func (r *runner) Close() {
 }
 
 func main() {
-	h.Main(h.Harness{Gen: gen, NewCase: newCase})
+	h.Main(h.Harness{Gen: gen, NewCase: newCase, OpTimeout: 10 * time.Minute})
 }
